@@ -286,6 +286,9 @@ func cmdReplay(id, path string) int {
 		return 2
 	}
 	abs, _ := filepath.Abs(path)
+	if strings.HasSuffix(abs, ".fuzz") {
+		return replayFuzz(id, c, abs)
+	}
 	cmd := exec.Command(bin, "-test.run", "^TestReplay$", "-test.v", "-test.timeout", "10m")
 	cmd.Dir = filepath.Join(harnessDir(), strings.TrimPrefix(c.Pkg, "./"))
 	cmd.Env = append(goEnv(), "VERIF_REPLAY="+abs, "VERIF_KNOWN="+filepath.Join(verifRoot, "known_findings.json"), "VERIF_ROOT="+verifRoot, "GOTRACEBACK=all")
@@ -404,8 +407,51 @@ func cmdRun(id, tier string) int {
 		inconclusive++
 	}
 
+	// native fuzzing (thorough tier only): coverage-guided search with the same oracles inside the targets
+	fuzzStats := map[string]interface{}{}
+	var fuzzExecs int64
+	if tier == "thorough" && violations == 0 && os.Getenv("VERIF_NOFUZZ") == "" {
+		for _, target := range c.FuzzTargets {
+			fr := runFuzz(id, c, target)
+			os.WriteFile(filepath.Join(runDir, "fuzz."+target+".log"), []byte(fr.out), 0o644)
+			fuzzStats["fuzz:"+target] = map[string]interface{}{"executions": fr.execs, "new_interesting": fr.interesting, "seconds": fr.seconds, "engine": "go test -fuzz"}
+			fuzzExecs += fr.execs
+			switch {
+			case fr.crasher != "":
+				if k := matchKnown(known, id, fr.sig); k != nil {
+					if !knownPrinted[k.Signature] {
+						fmt.Printf("KNOWN-FINDING: property=%s %s (%s)\n", id, k.Signature, k.What)
+						knownPrinted[k.Signature] = true
+					}
+					os.Remove(fr.crasher)
+					continue
+				}
+				dst := filepath.Join(verifRoot, "replays", fmt.Sprintf("%s-fuzz-%s-%s.fuzz", id, target, filepath.Base(fr.crasher)))
+				copyFile(fr.crasher, dst)
+				os.Remove(fr.crasher)
+				lines = append(lines, fmt.Sprintf("VIOLATION property=%s replay=%s", id, dst))
+				violations++
+				fmt.Println(tail(fr.out, 30))
+			case fr.failed:
+				fmt.Fprintf(os.Stderr, "fuzz target %s: did not complete (inconclusive)\n%s\n", target, tail(fr.out, 30))
+				inconclusive++
+			}
+		}
+	}
+
 	// merge stats
 	ev, knownHits := mergeStats(id, tier, seed, c, runDir)
+	if cov, ok := ev["coverage"].(map[string]interface{}); ok && len(fuzzStats) > 0 {
+		if sub, ok := cov["subchecks"].(map[string]interface{}); ok {
+			for k, v := range fuzzStats {
+				sub[k] = v
+			}
+		}
+		if e, ok := cov["evaluations"].(int64); ok {
+			cov["evaluations"] = e + fuzzExecs
+		}
+		cov["native_fuzz_executions"] = fuzzExecs
+	}
 	for sig, n := range knownHits {
 		if k := matchKnown(known, id, sig); k != nil && !knownPrinted[k.Signature] {
 			fmt.Printf("KNOWN-FINDING: property=%s %s (%s) [%d cases excluded]\n", id, k.Signature, k.What, n)
@@ -431,6 +477,106 @@ func cmdRun(id, tier string) int {
 		return 2
 	}
 	return 0
+}
+
+type fuzzResult struct {
+	execs, interesting int64
+	crasher            string // path of the failing input, if any
+	sig                string
+	failed             bool
+	out                string
+	seconds            float64
+}
+
+var (
+	fuzzExecsRe   = regexp.MustCompile(`execs: (\d+) \(`)
+	fuzzNewRe     = regexp.MustCompile(`new interesting: \d+ \(total: (\d+)\)`)
+	fuzzCrasherRe = regexp.MustCompile(`Failing input written to (\S+)`)
+	fuzzSigRe     = regexp.MustCompile(`VIOLATION-CANDIDATE \S+ sig=(\S+)`)
+)
+
+// runFuzz runs one native fuzz target for the configured time.
+func runFuzz(id string, c propCfg, target string) fuzzResult {
+	pkgDir := filepath.Join(harnessDir(), strings.TrimPrefix(c.Pkg, "./"))
+	os.RemoveAll(filepath.Join(pkgDir, "testdata", "fuzz", target)) // only findings of this run
+	ft := c.FuzzTime
+	if v := os.Getenv("VERIF_FUZZTIME"); v != "" {
+		if d, err := time.ParseDuration(v); err == nil {
+			ft = d
+		}
+	}
+	cmd := exec.Command("go", "test", "-tags", "verif", "-vet=off", "-run", "^$", "-fuzz", "^"+target+"$", "-fuzztime", ft.String(), c.Pkg)
+	cmd.Dir = harnessDir()
+	cmd.Env = append(goEnv(), "VERIF_ROOT="+verifRoot, "GOTRACEBACK=all")
+	outb, err := cmd.CombinedOutput()
+	out := string(outb)
+	r := fuzzResult{out: out, seconds: ft.Seconds()}
+	if m := fuzzExecsRe.FindAllStringSubmatch(out, -1); len(m) > 0 {
+		r.execs, _ = strconv.ParseInt(m[len(m)-1][1], 10, 64)
+	}
+	if m := fuzzNewRe.FindAllStringSubmatch(out, -1); len(m) > 0 {
+		r.interesting, _ = strconv.ParseInt(m[len(m)-1][1], 10, 64)
+	}
+	if err == nil {
+		return r
+	}
+	if m := fuzzCrasherRe.FindStringSubmatch(out); m != nil {
+		r.crasher = filepath.Join(pkgDir, m[1])
+		r.sig = "fuzz/crash"
+		if sm := fuzzSigRe.FindStringSubmatch(out); sm != nil {
+			r.sig = sm[1]
+		}
+		return r
+	}
+	// a seed of the target's own corpus (f.Add) fails: there is no file, the seed's name identifies the input
+	if m := regexp.MustCompile(`seed corpus entry: `+target+`/(seed#\d+)`).FindStringSubmatch(out); m != nil && strings.Contains(out, "VIOLATION-CANDIDATE") {
+		dir := filepath.Join(pkgDir, "testdata", "fuzz", target)
+		os.MkdirAll(dir, 0o755)
+		r.crasher = filepath.Join(dir, strings.Replace(m[1], "#", "", 1))
+		os.WriteFile(r.crasher, []byte(m[1]+"\n"), 0o644)
+		r.sig = "fuzz/crash"
+		if sm := fuzzSigRe.FindStringSubmatch(out); sm != nil {
+			r.sig = sm[1]
+		}
+		return r
+	}
+	r.failed = true
+	return r
+}
+
+// replayFuzz re-runs a saved failing input of a native fuzz target (file name: <id>-fuzz-<Target>-<hash>.fuzz).
+func replayFuzz(id string, c propCfg, abs string) int {
+	base := strings.TrimSuffix(filepath.Base(abs), ".fuzz")
+	parts := strings.Split(base, "-")
+	if len(parts) < 4 || parts[1] != "fuzz" {
+		fmt.Fprintf(os.Stderr, "not a fuzz replay file name: %s\n", abs)
+		return 2
+	}
+	target := parts[2]
+	pkgDir := filepath.Join(harnessDir(), strings.TrimPrefix(c.Pkg, "./"))
+	dir := filepath.Join(pkgDir, "testdata", "fuzz", target)
+	os.MkdirAll(dir, 0o755)
+	name := "replay-" + parts[len(parts)-1]
+	if b, err := os.ReadFile(abs); err == nil && strings.HasPrefix(string(b), "seed#") {
+		name = strings.TrimSpace(string(b)) // one of the target's own seeds
+	} else {
+		copyFile(abs, filepath.Join(dir, name))
+	}
+	defer os.RemoveAll(filepath.Join(pkgDir, "testdata", "fuzz", target))
+	cmd := exec.Command("go", "test", "-tags", "verif", "-vet=off", "-count=1", "-run", "^"+target+"$/"+name, "-v", c.Pkg)
+	cmd.Dir = harnessDir()
+	cmd.Env = append(goEnv(), "VERIF_ROOT="+verifRoot, "GOTRACEBACK=all")
+	out, err := cmd.CombinedOutput()
+	os.Stdout.Write(out)
+	if err == nil {
+		fmt.Printf("REPLAY-OK property=%s\n", id)
+		return 0
+	}
+	if strings.Contains(string(out), "[build failed]") || strings.Contains(string(out), "panic: test timed out") {
+		return 2
+	}
+	fmt.Printf("VIOLATION property=%s replay=%s\n", id, abs)
+	return 1
 }
 
 func matchKnown(known []knownFinding, prop, sig string) *knownFinding {
